@@ -6,7 +6,7 @@ use crate::genr::choices::Choices;
 use crate::genr::inputs::gen_input;
 use crate::genr::yrender::YKind;
 use crate::harness::{Layout, parse_digest};
-use crate::props::c10::{gen_case, yacc_kind};
+use crate::props::c10::{gen_case, gen_case_with, yacc_kind};
 use cfgrammar::yacc::YaccGrammar;
 use lrpar::ctbuilder::wincode;
 use lrtable::{Minimiser, from_yacc};
@@ -155,7 +155,8 @@ impl Prop for C14 {
     }
     fn decode(&self, choices: &[u32], tier: Tier) -> Value {
         let mut ch = Choices::new(choices);
-        let c = gen_case(&mut ch, tier);
+        // 1/12: a size dimension blown up to the neighbourhood of 255 (length prefixes, counts)
+        let c = if ch.chance(1, 12) { gen_case_with(&mut ch, tier, Some(crate::props::c20::inflate)) } else { gen_case(&mut ch, tier) };
         let mut inputs = vec![];
         let mut layouts = vec![];
         for _ in 0..5 {
@@ -178,7 +179,7 @@ impl Prop for C14 {
         .unwrap()
     }
     fn rule(&self) -> String {
-        "Grammars as C10 (all optional declarations independently present or absent, non-ASCII token names and action text, all yacc kinds incl. Eco) x {fixed, variable} integer encoding x {u8, u16, u32}; 5 inputs each. Oracle: serialise grammar and table with the two wincode configurations ctbuilder uses, lrpar::ctbuilder::_reconstitute, then digest(original) == digest(reconstituted) over every public grammar and table query (conflict lists in order) and equal parse results (recovery off: tree and errors; recovery on: first error and its repair set). Evaluation = one (grammar, storage width, format). Non-trivial: grammar uses >=3 optional features and its table has conflicts or precedence; distinct by hash(text).".into()
+        "Grammars as C10, 1/12 of them with one or two size dimensions inflated to 246..261 as in C20 (all optional declarations independently present or absent, non-ASCII token names and action text, all yacc kinds incl. Eco) x {fixed, variable} integer encoding x {u8, u16, u32}; 5 inputs each. Oracle: serialise grammar and table with the two wincode configurations ctbuilder uses, lrpar::ctbuilder::_reconstitute, then digest(original) == digest(reconstituted) over every public grammar and table query (conflict lists in order) and equal parse results (recovery off: tree and errors; recovery on: first error and its repair set). Evaluation = one (grammar, storage width, format). Non-trivial: grammar uses >=3 optional features and its table has conflicts or precedence; distinct by hash(text).".into()
     }
     fn assumptions(&self) -> Vec<String> {
         vec!["core_reduces compared through (rule,length) pairs (the representative is documented as arbitrary)".into()]
